@@ -1,5 +1,8 @@
 SPECIFICATION MCSpec
 CONSTANTS SlotDur = 3
+ Extra = 1
+ Feats = {"off"}
+ HeadPcs = {}
  NextResolve = "ascoded"
  TickMode = "ascoded"
  Variant = "code"
